@@ -78,6 +78,10 @@ fn preload(piece: &OrchestrationPiece) -> std::io::Result<Cache> {
 
         if file.metadata.is_padding_file { 
             results.push((None, vec![0; file.read_length as usize]));
+        } else if file.read_length == 0 {
+            // Nothing to read for an empty file; keep its best candidate (the export file, if present) as the source.
+            let source = file.metadata.searches.as_ref().and_then(|paths| paths.first().cloned());
+            results.push((source, Vec::new()));
         } else {
             let search_paths = file.metadata.searches.as_ref().unwrap();
     
